@@ -68,6 +68,11 @@ func main() {
 		sets(o, rep, w, rng)
 	}
 	histories(o, rep, w, rng)
+	if o.Replay == "" && len(rep.Violations) == 0 {
+		for k := 0; k < 4; k++ {
+			watcher(rep, w, rng.Fork(), 40)
+		}
+	}
 	rep.Finish()
 }
 
@@ -372,6 +377,82 @@ func genHist(rng *hx.Rng, n int) []hist.Op {
 		}
 	}
 	return ops
+}
+
+// watcher: one session keeps INBOX selected while messages arrive from outside (deliveries, another session's APPEND) and
+// other sessions flag messages \Deleted; it expunges, UID-expunges and NOOPs at random. Its own view — the count it has been
+// told through EXISTS, minus the EXPUNGE notices it has received — must be the server's count after every NOOP: "EXISTS, STATUS
+// MESSAGES, SEARCH ALL, FETCH 1:* … all describe that same set".
+func watcher(rep *hx.Report, w *world.World, rng *hx.Rng, steps int) {
+	u := "watch@example.com"
+	c0 := w.Login(u)
+	for i := 0; i < 3; i++ {
+		c0.Append("INBOX", "", hist.Msg(9300+i))
+	}
+	W := w.Login(u)
+	defer W.Close()
+	defer c0.Close()
+	count := -1
+	apply := func(r world.Resp) {
+		for _, l := range r.Untagged {
+			f := strings.Fields(l)
+			if len(f) == 3 && f[0] == "*" && f[2] == "EXISTS" {
+				count, _ = strconv.Atoi(f[1])
+			}
+			if len(f) == 3 && f[0] == "*" && f[2] == "EXPUNGE" {
+				count--
+			}
+		}
+	}
+	apply(W.Cmd("SELECT INBOX"))
+	truth := func() int {
+		n := -1
+		for _, l := range c0.Cmd("STATUS INBOX (MESSAGES)").Untagged {
+			if m := regexp.MustCompile(`MESSAGES (\d+)`).FindStringSubmatch(l); m != nil {
+				n, _ = strconv.Atoi(m[1])
+			}
+		}
+		return n
+	}
+	var trail []string
+	id := 9400
+	for i := 0; i < steps && len(rep.Violations) == 0; i++ {
+		switch rng.Intn(7) {
+		case 0, 1:
+			id++
+			w.Deliver("sender@example.org", []string{u}, hist.Msg(id))
+			trail = append(trail, "deliver")
+		case 2:
+			id++
+			c0.Append("INBOX", "", hist.Msg(id))
+			trail = append(trail, "append-by-other")
+		case 3:
+			o2 := w.Login(u)
+			o2.Cmd("SELECT INBOX")
+			o2.Cmd(fmt.Sprintf("STORE %d +FLAGS.SILENT (\\Deleted)", 1+rng.Intn(3)))
+			o2.Close()
+			trail = append(trail, "flag-deleted-by-other")
+		case 4:
+			apply(W.Cmd("EXPUNGE"))
+			trail = append(trail, "EXPUNGE")
+		case 5:
+			apply(W.Cmd("UID EXPUNGE 1:*"))
+			trail = append(trail, "UID-EXPUNGE")
+		case 6:
+			apply(W.Cmd("STORE 1 +FLAGS.SILENT (\\Deleted)"))
+			trail = append(trail, "STORE-own")
+		}
+		if rng.Chance(45) || i == steps-1 {
+			apply(W.Cmd("NOOP"))
+			trail = append(trail, "NOOP")
+			rep.Case(fmt.Sprintf("watcher|%d|%s", i, strings.Join(trail, ",")), true)
+			if t := truth(); t != count {
+				rep.Violate("impl-violation", "one list (the selected session's own view: EXISTS minus the EXPUNGE notices it received)", fmt.Sprintf("after %v the session that has INBOX selected has been told of %d messages; STATUS MESSAGES (another session) says %d", trail, count, t), []string{"watcher " + strings.Join(trail, ",")})
+				return
+			}
+			rep.Hit("watcher:view-agrees")
+		}
+	}
 }
 
 func histories(o *hx.Opts, rep *hx.Report, w *world.World, rng *hx.Rng) {
